@@ -105,6 +105,17 @@ def g_resolution(c, hint=None):
     rc, out, err = c.run(["-", "-"], stdin=CONTENT["json"])
     if rc != 1 or not err.startswith(b"xt error"):
         bad.append("`xt - -` must fail with status 1: %r" % ((rc, out, err),))
+    # standard input that is a regular file whose offset is not 0: only the rest is input
+    two = os.path.join(c.dir, "two.json")
+    first = b'{"skip":0}\n'
+    open(two, "wb").write(first + b'{"keep":1}\n')
+    for argv in ([], ["-"], ["-f", "json"]):
+        fd = os.open(two, os.O_RDONLY)
+        os.lseek(fd, len(first), os.SEEK_SET)
+        p = subprocess.run([c.bin] + argv, stdin=fd, stdout=subprocess.PIPE, stderr=subprocess.PIPE, cwd=c.dir, timeout=20)
+        os.close(fd)
+        if p.returncode != 0 or p.stdout != b'{"keep":1}\n':
+            bad.append("`{ read line; xt %s; } < two.json` must translate only what is left on standard input: exit=%d stdout=%r" % (" ".join(argv), p.returncode, p.stdout[:60]))
     rc, out, err = c.run(["-f", "yaml", "doc.json", "doc.yaml"])
     a = c.run(["-f", "yaml", "doc.json"])
     b = c.run(["-f", "yaml", "doc.yaml"])
